@@ -315,7 +315,8 @@ def rule_normalize(ck, methods, all_acc):
     param = [p for p in norm.params()][0]
     for r in rets:
         rv = expand(norm, r.value)
-        cm = [c for c in ast.walk(rv) if isinstance(c, ast.Call) and isinstance(c.func, ast.Attribute) and c.func.attr in CASE_METHODS]
+        # a case-folding str method applied directly or passed as a function (map(str.capitalize, ...))
+        cm = [c for c in ast.walk(rv) if isinstance(c, ast.Attribute) and c.attr in CASE_METHODS]
         if cm and param not in q.names_in(rv):
             raise AnalysisError("C06.normalize: cannot relate the value returned by _normalize_header to its parameter")
         ck.ob("C06.normalize", norm, r, bool(cm), "_normalize_header returns a case-normalised form of its argument (one of %s applied)" % "/".join(CASE_METHODS))
